@@ -142,6 +142,17 @@ class Tr:
             if t == "TD" and e.attr == "days":
                 return x, "I"
             bail(e, "unsupported attribute")
+        if isinstance(e, ast.Subscript) and isinstance(e.value, ast.Call) and src(e.value.func) == "calendar.monthrange" \
+                and isinstance(e.slice, ast.Constant) and e.slice.value == 1 and type(e.slice.value) is int:
+            ys = []
+            for a in e.value.args:
+                x, t = self.expr(a, env)
+                if t != "I":
+                    bail(a, "monthrange argument is not an int")
+                ys.append(x)
+            if len(ys) != 2 or e.value.keywords:
+                bail(e, "monthrange arity")
+            return f"(py_monthrange_days {ys[0]} {ys[1]})", "I"
         if isinstance(e, ast.IfExp):
             c, tc = self.expr(e.test, env)
             if tc != "B":
@@ -366,7 +377,59 @@ class Tr:
                     v = self.fresh(tgt.id)
                     env[tgt.id] = (v, t2)
                     return f"let {v} := (if {c} then {x} else {old2}) in\n  {self.block(rest, env, ret, node)}"
-            bail(s, "unsupported if-statement shape")
+            # general conditional update: both branches are straight-line assignments to plain names
+            def assigned(stmts):
+                out = []
+                for st in stmts:
+                    if isinstance(st, ast.Assign) and len(st.targets) == 1 and isinstance(st.targets[0], ast.Name):
+                        out.append(st.targets[0].id)
+                    elif isinstance(st, ast.AugAssign) and isinstance(st.target, ast.Name):
+                        out.append(st.target.id)
+                    elif isinstance(st, ast.Expr) and isinstance(st.value, ast.Constant):
+                        continue
+                    else:
+                        bail(st, "unsupported statement inside a conditional update")
+                return out
+            names = sorted(set(assigned(s.body)) | set(assigned(s.orelse)))
+            if not names:
+                bail(s, "unsupported if-statement shape")
+
+            def branch(stmts):
+                benv, lets = dict(env), []
+                for st in stmts:
+                    if isinstance(st, ast.Expr):
+                        continue
+                    if isinstance(st, ast.Assign):
+                        tgt, val = st.targets[0].id, st.value
+                    else:
+                        tgt = st.target.id
+                        val = ast.BinOp(left=ast.Name(id=tgt, ctx=ast.Load()), op=st.op, right=st.value)
+                        ast.copy_location(val, st)
+                    x, t = self.expr(val, benv)
+                    v = self.fresh(tgt)
+                    benv[tgt] = (v, t)
+                    lets.append(f"let {v} := {x} in ")
+                for n in names:
+                    if n not in benv:
+                        bail(s, f"`{n}` is assigned in one branch only and not defined before the if")
+                return lets, [benv[n] for n in names]
+            la, va = branch(s.body)
+            lb, vb = branch(s.orelse)
+            comps_a, comps_b, types = [], [], []
+            for (xa, ta), (xb, tb) in zip(va, vb):
+                xa2, xb2, t2 = self.unify(xa, ta, xb, tb, s)
+                comps_a.append(xa2)
+                comps_b.append(xb2)
+                types.append(t2)
+            vs = []
+            for n, t in zip(names, types):
+                v = self.fresh(n)
+                env[n] = (v, t)
+                vs.append(v)
+            tup = (lambda cs: cs[0] if len(cs) == 1 else "(" + ", ".join(cs) + ")")
+            pat = vs[0] if len(vs) == 1 else "'(" + ", ".join(vs) + ")"
+            return (f"let {pat} := (if {c} then {''.join(la)}{tup(comps_a)} else {''.join(lb)}{tup(comps_b)}) in\n  "
+                    f"{self.block(rest, env, ret, node)}")
         bail(s, "unsupported statement")
 
     _n = 0
